@@ -327,6 +327,11 @@ func runC09(c *Ctx) {
 	c.ruleS3("R11-non-boolean-condition-faults")
 	c.only = nil
 	c.Min("R11-non-boolean-condition-faults", 2)
+	// R12: a `return <expr>` whose expression failed hands up that error, not "returned nil": the return
+	// obligations of C02-S6 (a return statement that did not fail hands up the flag and the value; it may say
+	// so only where the error is known to be nil)
+	c.ruleM3c("R12-failed-return-is-a-fault")
+	c.Min("R12-failed-return-is-a-fault", 2)
 	c.Min("R9-lock-released-when-faulting", 20)
 	// R10
 	c.ruleNoZeroForAFault("R10-no-zero-for-a-fault")
